@@ -266,3 +266,48 @@ Definition apply_operation (f : V -> V -> V) (conv : V -> V) (filler sentinel : 
   end.
 
 End MultiOps.
+
+(* ---- cat_healsparse_files (cat_healsparse_files.py, in-memory mode).  ONE output map; for every
+   output coverage pixel in ascending order and every input in list order:
+       sparse_map[valid_pixels] = in_map[valid_pixels]
+   for the input's valid pixels inside that coverage pixel — a 'replace' update that grows the output
+   coverage as it goes.  [cat_cov_pix] is the list of output coverage pixels the routine visits
+   (cov_mask_summary): the input's covered pixels when the coverage resolutions match, the coverage
+   pixels of its valid pixels when the output coverage is finer, the shifted covered pixels when it is
+   coarser. ---- *)
+Section CatOps.
+Variable V : Type.
+Variable valid : V -> bool.
+Variable dv : V.
+Variables (vadd vor vand : V -> V -> V).
+Variable vzero : V.
+Variable is_sent : V -> bool.
+Variable sent_nonzero : bool.
+
+Definition cat_pvs (nf : Z) (m : smap V) (pix : Z) : list (Z * V) :=
+  match valid_pixels V valid dv m with
+  | Some vp => map (fun p => (p, read V dv m p)) (filter (fun p => p / nf =? pix) vp)
+  | None => []
+  end.
+
+Definition cat_step (nf : Z) (inputs : list (smap V)) (sm : smap V) (pix : Z) : smap V :=
+  fold_left (fun sm m => update V dv vadd vor vand vzero is_sent sent_nonzero sm URepl (cat_pvs nf m pix) false)
+            inputs sm.
+
+Definition cat_mem (ncv nf : Z) (sentinel : V) (inputs : list (smap V)) (cov_pix : list Z) : smap V :=
+  fold_left (cat_step nf inputs) cov_pix (make_empty V ncv nf sentinel None).
+
+Definition cat_cov_of (ncv nf : Z) (m : smap V) : list Z :=
+  if nfine m =? nf then covered_pixels (nfine m) (idx m)
+  else if nf <? nfine m then
+    (* the output coverage is finer than this input's: the coverage pixels of its valid pixels *)
+    match valid_pixels V valid dv m with
+    | Some vp => map (fun p => p / nf) vp
+    | None => []
+    end
+  else map (fun c => c * nfine m / nf) (covered_pixels (nfine m) (idx m)).
+
+Definition cat_cov_pix (ncv nf : Z) (inputs : list (smap V)) : list Z :=
+  filter (fun c => existsb (fun m => existsb (Z.eqb c) (cat_cov_of ncv nf m)) inputs) (zrange 0 ncv).
+
+End CatOps.
